@@ -190,6 +190,22 @@ where
                     case: json!({"ctx": ctx, "model": tsx, "miniscript": ms.to_string()}),
                 });
             };
+            // ---- structural accessors ----
+            {
+                let got: Vec<T> = ms.branches().into_iter().map(|b| walk(b)).collect();
+                let exp: Vec<T> = t.children().into_iter().cloned().collect();
+                if got != exp {
+                    viol("branches", format!("branches() yields {} children, the term has {}", got.len(), exp.len()));
+                }
+                let raw = t.nodes().iter().any(|x| matches!(x, T::RawPkH(_)));
+                if ms.contains_raw_pkh() != raw {
+                    viol("contains_raw_pkh", format!("contains_raw_pkh() = {} but the term {} a raw key hash", ms.contains_raw_pkh(), if raw { "has" } else { "has no" }));
+                }
+                let n_iter = ms.iter().count();
+                if n_iter != t.size() {
+                    viol("iter-count", format!("iter() visits {} nodes of {}", n_iter, t.size()));
+                }
+            }
             // ---- iterators ----
             let keys = t.keys();
             match guard(|| ms.iter_pk().collect::<Vec<String>>()) {
